@@ -71,7 +71,7 @@ CHECKS = {
     },
     "C03": {
         "packages": ["vchecks", "vgen"],
-        "steps": [vc("c03a", "api", 30000, 8000000), vc("c03-maps", "maps", 20000, 4000000), l3("c03b", "l3", 90000, 24000000),
+        "steps": [vc("c03a", "api", 30000, 8000000), vc("c03-maps", "maps", 20000, 4000000), vc("c03s", "builtins", 40000, 8000000, produces=["seqs", "hooks"]), l3("c03b", "l3", 90000, 24000000),
                   l3("c03-enums", "enums", 1, 1), l3("c03-body", "body", 30000, 6400000, gen=GEN_MAGIC)],
         "assumptions": L1_ASSUME,
     },
